@@ -46,8 +46,15 @@ def check(run, prog, tier):
                  and b.id in cfgq.reach_set(be, [gb.id])]
         # the only other guard between the loop test and the store is the slot being occupied
         extra = [(op, show(l)) for op, l, r, B2 in g if be.dominates(B, B2) and B2 != B]
-        slot_only = all(op == "true" and strip(l).get("k") == "Sub" and strip(strip(l)["b"]).get("n") == "all_users"
-                        for op, l, r, B2 in g if be.dominates(B, B2) and B2 != B)
+        # the slot itself, or a local that was just loaded from it (interactive_t *user = all_users[i])
+        slot_alias = {strip(n2["L"]).get("id") for b2, i2, n2 in be.nodes() if n2.get("k") == "Asg" and n2.get("op") == "=" and strip(n2["L"]).get("k") == "Ref" and strip(n2["R"]).get("k") == "Sub" and strip(strip(n2["R"])["b"]).get("n") == "all_users"}
+        slot_alias |= {v.get("id") for b2, i2, n2 in be.nodes() if n2.get("k") == "Decl" for v in n2.get("vars", ()) if isinstance(v.get("init"), dict) and strip(v["init"]).get("k") == "Sub" and strip(strip(v["init"])["b"]).get("n") == "all_users"}
+        slot_alias.discard(None)
+
+        def is_slot(l):
+            l = strip(l)
+            return (l.get("k") == "Sub" and strip(l["b"]).get("n") == "all_users") or (l.get("k") == "Ref" and l.get("id") in slot_alias)
+        slot_only = all(op == "true" and is_slot(l) for op, l, r, B2 in g if be.dominates(B, B2) and B2 != B)
         ok = bool(inits) and bool(steps) and slot_only
         why = "i = 0 (%s); i++ (%s); store guarded only by the slot being occupied (%s)" % (bool(inits), bool(steps), extra)
         cmds = [(b, i, n) for b, i, n in be.calls("process_user_command")]
@@ -198,6 +205,26 @@ def check(run, prog, tier):
             gone_preds.add(h.name)
 
     def user_gone(bid):
+        # `!ob || ob->interactive != ip`: the block is entered from the true edge of either disjunct
+        preds = [p for p in guc.blocks[bid].preds if p in guc.reachable()]
+        if len(preds) >= 2:
+            kinds = []
+            for p in preds:
+                c = guc.branch_cond(p)
+                if c is None:
+                    kinds.append(None)
+                    continue
+                idx = 0 if guc.blocks[p].succ[0] == bid else 1
+                op, l, r = atom_of(c, idx == 0)
+                l0 = strip(l) if l is not None else {}
+                if op == "!=" and r is not None and (any(x.get("k") == "Mem" and x.get("f") == "interactive" for x in walk(l)) or any(x.get("k") == "Mem" and x.get("f") == "interactive" for x in walk(r))):
+                    kinds.append("gone")
+                elif (op == "false" or (op == "==" and r is not None and const_val(r) == 0)) and "object" in (l0.get("t") or ""):
+                    kinds.append("null-ob")
+                else:
+                    kinds.append(None)
+            if all(kinds) and "gone" in kinds:
+                return True
         for c, t, B in cfgq.guards(guc, bid):
             e1, t1 = normalize_cond(c, t)
             if (not t1) and strip(e1).get("k") == "Call" and strip(e1).get("fn") in gone_preds:
